@@ -270,8 +270,9 @@ package lexer
 // the hand-off itself is the sequentialisation assumption.
 //@ iface Tokeniser.NextToken
 //@ requires SInv() && !strmDone
-//@ modifies strmLeft, strmDone, strmExp, strmLastT
+//@ modifies strmLeft, strmDone, strmExp, strmLastT, strmN
 //@ ensures SInv() && TokOK(result) && strmLastT == result.Type
+//@ ensures [F1] strmN == old(strmN) + 1 && result == strmAll[old(strmN)]
 //@ ensures old(strmLeft) >= 1 && strmLeft == old(strmLeft) - 1
 //@ ensures strmDone == (result.Type == token.EOF || result.Type == token.ERROR)
 //@ ensures expOK(old(strmExp), result.Type) && strmExp == expNext(old(strmExp), result.Type)
